@@ -304,6 +304,26 @@ def one_cooler(ctx, cid, rng, idx):
             ok = ok and col_eq(j["count"], T["pixels"]["count"][a:b])
             c.check(ok, "pixels-join-wrong", f"pixels(join=True)[{a}:{b}] does not carry each pixel's own bin coordinates")
         check_annotate(c, cooler, clr, T, rng, n, 16)
+        # history: the chromosome names stored in the file change (rename on this live object); the same selectors
+        # and joins must then speak the names stored NOW
+        if idx % 3 == 1 and not c.failed:
+            old = list(T["chroms"]["name"])
+            mp = {nm: f"renamed.{k}" for k, nm in enumerate(old) if k % 2 == 0}
+            cooler.rename_chroms(clr, mp)
+            T2 = raw_tables(path, group)
+            c.feature("history:selectors-after-rename_chroms")
+            for label, obj in (("live-object", clr), ("reopened", cooler.Cooler(uri))):
+                check_selector(c, "bins", obj.bins(), {k: T2["bins"][k] for k in bcols}, bcols, rng, 12)
+                if len(P):
+                    j = obj.pixels(join=True)[:]
+                    ids1 = T2["pixels"]["bin1_id"]
+                    c.check(col_eq(j["chrom1"], T2["bins"]["chrom"][ids1]), f"pixels-join-wrong:after-rename:{label}",
+                            f"[{label}] pixels(join=True) after rename_chroms({mp}) does not carry the names stored in the file")
+                pix = pd.DataFrame({k: T2["pixels"][k] for k in ("bin1_id", "bin2_id", "count")}).iloc[: max(1, len(P) // 2)]
+                if len(pix):
+                    got = cooler.annotate(pix, obj.bins())
+                    c.check(col_eq(got["chrom2"], T2["bins"]["chrom"][pix["bin2_id"].to_numpy()]),
+                            f"annotate-wrong:after-rename:{label}", f"[{label}] annotate against bins() after a rename uses old names")
         ctx.sample({"family": fam, "encoding": enc, "nbins": n, "nnz": len(P), "extra_bin_columns": bool(bex)}, limit=4)
     os.remove(path)
 
